@@ -1,6 +1,7 @@
 (* C11 -- redo never overwrites or deletes files it did not produce. *)
 From Coq Require Import ZArith.
-From Redo Require Import Base.Bytes Build.Model Build.FsLemmas Build.RecordProofs Build.LocalProofs.
+From Coq Require Import List.
+From Redo Require Import Base.Bytes Build.Model Build.FsLemmas Build.RecordProofs Build.LocalProofs Build.Protect.
 
 (* A job for a file that exists and is not redo's own -- never generated, or
    marked overridden, or no longer carrying the stamp redo recorded -- ends
@@ -49,6 +50,71 @@ Check C11_queries_readonly : forall c w,
   fs (fst (exec c w)) = fs w /\ rows (dbs (fst (exec c w))) = rows (dbs w)
   /\ deps (dbs (fst (exec c w))) = deps (dbs w) /\ clock (fst (exec c w)) = clock w.
 Print Assumptions C11_queries_readonly.
+
+(* ---------------------------------------------------------------- the whole property on the model
+   [protected w n]: n exists, is not in redo's reserved name space (names ending in .redo.tmp,
+   //ALWAYS), and no database row claims it as redo's own (never generated, or
+   overridden, or the recorded stamp is not the file's).
+   Every build -- any project, any command line, any environment, any fuel --
+   leaves every protected file byte-for-byte alone and protected. *)
+Theorem C11_build_protects : forall fuel e m ts w w' evs rc n,
+  build fuel e m ts w = Ret (w', evs, rc) ->
+  protected w n -> fs_get (fs w') n = fs_get (fs w) n /\ protected w' n.
+Proof. intros fuel e m ts w w' evs rc n H. exact (proj2 (build_STEP fuel e m ts w w' evs rc H) n). Qed.
+Check C11_build_protects : forall fuel e m ts w w' evs rc n,
+  build fuel e m ts w = Ret (w', evs, rc) ->
+  (exists_b w n = true /\ reserved n = false /\
+   forall i, find_row (rows (dbs w)) n 1 = Some i ->
+     (negb (r_gen (get_row (dbs w) i)) || r_ovr (get_row (dbs w) i)
+      || match r_stamp (get_row (dbs w) i) with Some s => detect_override s (read_stamp w n) | None => true end) = true) ->
+  fs_get (fs w') n = fs_get (fs w) n /\ protected w' n.
+Print Assumptions C11_build_protects.
+
+(* ... and so does every history of commands and of user edits of OTHER files *)
+Theorem C11_history_protects : forall n h w,
+  protected w n -> Forall (step_spares n) h ->
+  forall w' o, In (w', o) (run_history h w) -> fs_get (fs w') n = fs_get (fs w) n /\ protected w' n.
+Proof. exact history_protects. Qed.
+Check C11_history_protects : forall n h w,
+  protected w n ->
+  Forall (fun s => match s with SWrite m _ | SWriteDo m _ | SRemove m => m <> n | _ => True end) h ->
+  forall w' o, In (w', o) (run_history h w) -> fs_get (fs w') n = fs_get (fs w) n /\ protected w' n.
+Print Assumptions C11_history_protects.
+
+(* a file the user writes is protected from then on (A-STAMP: the write takes a
+   stamp no row has recorded for that name) *)
+Theorem C11_user_write_protected : forall w n data sc,
+  reserved n = false ->
+  (forall i s, find_row (rows (dbs w)) n 1 = Some i -> r_stamp (get_row (dbs w) i) = Some s ->
+     s <> SFile (clock w) (N.of_nat (length data))) ->
+  protected (write_file w n data sc) n.
+Proof. exact user_write_protected. Qed.
+Check C11_user_write_protected : forall w n data sc,
+  reserved n = false ->
+  (forall i s, find_row (rows (dbs w)) n 1 = Some i -> r_stamp (get_row (dbs w) i) = Some s ->
+     s <> SFile (clock w) (N.of_nat (length data))) ->
+  protected (write_file w n data sc) n.
+Print Assumptions C11_user_write_protected.
+
+(* non-vacuity of the hypotheses: after redo has generated t and the user has
+   overwritten it, t is protected (and the stamp premise of
+   C11_user_write_protected holds at the moment of the write) *)
+Example C11_protected_example :
+  let sc := {| s_deps := []; s_ifcreate := []; s_always := false; s_stamp := false;
+               s_out := OStdout; s_payload := 9; s_cat := false; s_exit := 0%Z; s_tol := false |} in
+  let t := [116] in
+  let w1 := fst (last (run_history [SWriteDo [116;46;100;111] sc; SCmd (CRedo false [t])] (init_world 0)) (init_world 0, None)) in
+  let w2 := write_file w1 t [5] None in
+  (match find_row (rows (dbs w1)) t 1 with
+   | Some i => r_gen (get_row (dbs w1) i) = true
+               /\ match r_stamp (get_row (dbs w1) i) with
+                  | Some (SFile mt _) => N.ltb mt (clock w1) = true | _ => False end
+   | None => False end)
+  /\ exists_b w2 t = true /\ reserved t = false
+  /\ match find_row (rows (dbs w2)) t 1 with
+     | Some i => row_protects w2 t (get_row (dbs w2) i) = true
+     | None => False end.
+Proof. vm_compute. repeat split; reflexivity. Qed.
 
 (* non-vacuity: a user file named like a target with a matching rule is kept,
    through redo and redo-ifchange, and rebuilt only after the user removes it *)
